@@ -28,10 +28,11 @@ const (
 	stapaHeaderSize     = 1
 	stapaNALULengthSize = 2
 
-	naluTypeBitmask   = 0x1F
-	naluRefIdcBitmask = 0x60
-	fuStartBitmask    = 0x80
-	fuEndBitmask      = 0x40
+	naluTypeBitmask      = 0x1F
+	naluRefIdcBitmask    = 0x60
+	naluForbiddenBitmask = 0x80
+	fuStartBitmask       = 0x80
+	fuEndBitmask         = 0x40
 
 	outputStapAHeader = 0x78
 )
@@ -191,6 +192,7 @@ func (p *H264Payloader) Payload(mtu uint16, payload []byte) [][]byte { //nolint:
 			// +---------------+
 			out[0] = fuaNALUType
 			out[0] |= naluRefIdc
+			out[0] |= nalu[0] & naluForbiddenBitmask
 
 			// +---------------+
 			// |0|1|2|3|4|5|6|7|
@@ -311,7 +313,8 @@ func (p *H264Packet) parseBody(payload []byte) ([]byte, error) { //nolint:cyclop
 		p.fuaBuffer = append(p.fuaBuffer, payload[fuaHeaderSize:]...)
 
 		if payload[1]&fuEndBitmask != 0 {
-			naluRefIdc := payload[0] & naluRefIdcBitmask
+			// F and NRI of the fragmented NAL unit travel in the FU indicator
+			naluRefIdc := payload[0] & (naluForbiddenBitmask | naluRefIdcBitmask)
 			fragmentedNaluType := payload[1] & naluTypeBitmask
 
 			nalu := append([]byte{}, naluRefIdc|fragmentedNaluType)
